@@ -128,6 +128,12 @@ func c06PodVariants(ap, af int32, slow int, thorough bool) []c06Pod {
 	}
 	out = append(out, c06Pod{Kind: "waiting", Reason: "ErrImagePull", StartAgo: 61, Shape: "second"}, c06Pod{Kind: "waiting", Reason: "ErrImagePull", StartAgo: 61, Shape: "init"})
 	out = append(out, c06Pod{Kind: "outdated", Restarts: int(af) + 3}, c06Pod{Kind: "terminating", Restarts: int(af) + 3})
+	// a restart count whose last termination is no longer known (the dead container was garbage collected, the node
+	// rebooted): the count is what the thresholds are compared with
+	out = append(out, c06Pod{Kind: "restarts", Restarts: int(af) + 1, Shape: "nolaststate"})
+	if ap != af {
+		out = append(out, c06Pod{Kind: "restarts", Restarts: int(ap) + 1, Shape: "nolaststate"})
+	}
 	return out
 }
 
@@ -218,7 +224,7 @@ func c06Objects(c c06Case, now time.Time) (*v1.ExtendedDaemonSet, *v1.ExtendedDa
 		p.Status.StartTime = &st
 		cst := corev1.ContainerStatus{Name: "main", Ready: true, RestartCount: int32(pv.Restarts)}
 		ready := corev1.ConditionTrue
-		if pv.Restarts > 0 {
+		if pv.Restarts > 0 && pv.Shape != "nolaststate" {
 			cst.LastTerminationState = corev1.ContainerState{Terminated: &corev1.ContainerStateTerminated{ExitCode: 1, Reason: "Error", FinishedAt: metav1.NewTime(now.Add(-15 * time.Second))}}
 		}
 		if pv.Reason != "" {
